@@ -25,6 +25,8 @@ def wf_defs():
         "chain": [("A", ["src"], ["a"]), ("B", ["a"], ["b"]), ("C", ["b"], ["c"])],
         "diamond": [("A", ["src"], {"o": "a"}), ("B", ["a"], ["b"]), ("C", ["a", "src2"], ["c"]), ("D", [["b"], ["c"]], ["d"]), ("E", ["a"], [])],
         "twocomp": [("A", ["src"], ["a"]), ("B", ["a"], ["b"]), ("X", ["src2"], ["x"])],
+        # outputs in sub-directories: a missing output whose directory is missing too (e.g. a deleted results directory)
+        "subdirs": [("A", ["src"], ["out/a"]), ("B", ["out/a"], ["out/deep/b"]), ("C", ["out/deep/b"], ["c"])],
         # X depends on B and C, and B depends on C (a shortcut edge): a traversal that is not strictly dependencies-first shows here
         "shortcut": [("C", ["src"], ["c"]), ("B", ["c"], ["b"]), ("X", ["b", "c"], ["x"])],
         "shortcut2": [("Index", ["src"], ["index"]), ("Align", ["src", "index"], ["aligned"]), ("Report", ["aligned", "index"], ["report"]), ("Zlast", ["report", "index"], ["z"])],
